@@ -322,17 +322,23 @@ def localTo (mode : Trie.Mode) (b : Broker) (q : Ssid) : List ConnId :=
 
 /-! ## the transport -/
 
-/-- what is queued in a bucket of a `gossipSender` (after the D4 repair: a payload whose `Merge`
-is the union; the complete state absorbs everything and is encoded when it is picked) -/
+/-- what is queued in a bucket of a `gossipSender` (after the D4 repair: a payload object whose
+`Merge` returns the union of COPIES of both payloads). `complete` is the payload `Gossip()` hands
+out: it wraps the live state, so it is encoded as the state is when it is picked — unless it is
+merged with something first, which copies the state as it is at that moment. -/
 inductive Pending where
   | complete
   | data (m : Map)
 deriving Repr
 
-def Pending.merge : Pending → Pending → Pending
-  | .complete, _ => .complete
-  | _, .complete => .complete
-  | .data a, .data b => .data (Lww.merge a b).1
+/-- the content of a payload when it is copied / encoded while the sender's state is `cur` -/
+def Pending.payload (cur : Map) : Pending → Map
+  | .complete => cur
+  | .data m => m
+
+/-- `payload.Merge(other)` at a sender whose state is `cur` -/
+def Pending.merge (cur : Map) (p o : Pending) : Pending :=
+  .data (Lww.merge (p.payload cur) (o.payload cur)).1
 
 /-- an encoded protocol message on a connection -/
 inductive Wire where
@@ -348,10 +354,10 @@ structure Link where
   wire : List Wire := []
 deriving Repr
 
-/-- `gossipSender.Send` -/
-def Link.send (l : Link) (d : Pending) : Link :=
+/-- `gossipSender.Send` (at a sender whose state is `cur`) -/
+def Link.send (l : Link) (cur : Map) (d : Pending) : Link :=
   if !l.up then l else
-  { l with gossip := some (match l.gossip with | none => d | some g => g.merge d) }
+  { l with gossip := some (match l.gossip with | none => d | some g => g.merge cur d) }
 
 /-- `gossipSender.Broadcast(src, data)` -/
 def Link.broadcast (l : Link) (src : PeerName) (m : Map) : Link :=
@@ -387,8 +393,10 @@ def Cluster.neighbours (c : Cluster) (a : PeerName) : List PeerName :=
 def Cluster.broadcastFrom (c : Cluster) (a : PeerName) (src : PeerName) (m : Map) (to : List PeerName) : Cluster :=
   to.foldl (fun c x => c.setLink a x ((c.link a x).broadcast src m)) c
 
+def Cluster.stateOf (c : Cluster) (a : PeerName) : Map := ((c.broker? a).map (·.state)).getD []
+
 def Cluster.sendFrom (c : Cluster) (a : PeerName) (d : Pending) (to : List PeerName) : Cluster :=
-  to.foldl (fun c x => c.setLink a x ((c.link a x).send d)) c
+  to.foldl (fun c x => c.setLink a x ((c.link a x).send (c.stateOf a) d)) c
 
 inductive Ev where
   | sub (b : PeerName) (c : ConnId) (σ : Ssid) (now : Int)
@@ -447,9 +455,7 @@ def Cluster.step (c : Cluster) : Ev → Cluster × Res
       if !l.up then (c, {}) else
       match l.gossip with
       | some g =>
-          let m := match g with
-            | .complete => ((c.broker? a).map (·.state)).getD []
-            | .data m => m
+          let m := g.payload (c.stateOf a)
           (c.setLink a b { l with gossip := none, wire := l.wire ++ [.gossip m] }, { picked := some (.gossip m) })
       | none =>
           match l.bcasts.lookup src with
@@ -480,7 +486,7 @@ def Cluster.step (c : Cluster) : Ev → Cluster × Res
                 | none => c
               (c, { flags := r.flags, delta := r.delta })
       | _, _ => (c, {})
-  | .gossip a b => (c.setLink a b ((c.link a b).send .complete), {})
+  | .gossip a b => (c.setLink a b ((c.link a b).send (c.stateOf a) .complete), {})
   | .linkDown a b =>
       let c := c.setLink a b { up := false }
       (c.setLink b a { up := false }, {})
